@@ -8,6 +8,8 @@ import Gbo.Props.C05
 import Gbo.Props.C06
 import Gbo.Props.C07
 import Gbo.Props.C12
+import Gbo.Props.C13
 import Gbo.Props.C14
 import Gbo.Props.C15
+import Gbo.Props.C16
 import Gbo.Props.C17
